@@ -87,8 +87,15 @@ def apply : Handler := fun args =>
           Json.arr #[.str n, .str (match walkChain E ((keyUniverse E S).length + 2) S n with
             | .leaf => "leaf" | .stuck => "stuck" | .long => "long")]
       | _ => []
+    -- the class each service's chain gets stuck with, if it does (`stuckClass`; `stuck_service_error_class`)
+    let stuck : List Json :=
+      match lookup "services" dict with
+      | some (.map S) => (keys S).map fun n =>
+          Json.arr #[.str n, match stuckClass E ((keyUniverse E S).length + 2) S n with
+            | some c => .str c | none => Json.null]
+      | _ => []
     Json.mkObj [("outs", Json.arr (distinct.filterMap fun s => (Json.parse s).toOption).toArray),
-                ("flat", Json.arr flat.toArray), ("walk", Json.arr walk.toArray)]
+                ("flat", Json.arr flat.toArray), ("walk", Json.arr walk.toArray), ("stuck", Json.arr stuck.toArray)]
   | _ => Json.mkObj [("bad", "dict")]
 
 /-- `override.ExtendService`: through the C04 merge model (`full`) and through the rule-free merge (`plain`) -/
